@@ -103,3 +103,19 @@ package jp
 //@       entry [C05 C11 slice-inner-empty] lo <= hid ==> start < i
 //@       entry [C05 C11 slice-inner] hid < lo ==> hid < i && i <= lo && i + step <= hid && (lo - i) % (0 - step) == 0
 //@       invariant [C05 C11 slice-inner] lo < n && step < 0 && start == lo && len(results) == L0 && -1 < i
+
+// Union fragment, integer member on a plain array: the member selects exactly the element its index denotes; the
+// found flag is cleared for every member (checked where the union loops enter these clauses).
+//@   region unionTop = case Union
+//@   region unionIdxLast = case Union > case int64 > case []any
+//@     parent unionTop
+//@     let i0 = i
+//@     let v0 = v
+//@     assume [C05 C11 union-reset] !has
+//@     assert [C05 C11 union-idx] has == (spec.NormIndex(i0, len(tv)) >= 0) && (has ==> v == tv[spec.NormIndex(i0, len(tv))]) && (!has ==> v == v0)
+//@   region unionIdxInner = case Union > case int64#1 > case []any
+//@     parent unionTop
+//@     let i0 = i
+//@     let v0 = v
+//@     assume [C05 C11 union-reset] !has
+//@     assert [C05 C11 union-idx] has == (spec.NormIndex(i0, len(tv)) >= 0) && (has ==> v == tv[spec.NormIndex(i0, len(tv))]) && (!has ==> v == v0)
